@@ -41,36 +41,70 @@ pub fn quiet_panics() {
 
 
 // ---------------------------------------------------------------------------------
-// counting allocator: the largest single request since the last reset
+// counting allocator: the largest single request since the last reset, and the bytes live at the
+// highest point of a measured window (decode_window_begin .. decode_window_end)
 use std::alloc::{GlobalAlloc, Layout, System};
 use std::sync::atomic::{AtomicU64, AtomicUsize, Ordering};
 
 pub struct Counting;
 pub static MAX_REQ: AtomicUsize = AtomicUsize::new(0);
+pub static LIVE: AtomicUsize = AtomicUsize::new(0);
+pub static PEAK: AtomicUsize = AtomicUsize::new(0);
+pub static WINDOW_BASE: AtomicUsize = AtomicUsize::new(0);
+pub static WINDOW_PEAK: AtomicUsize = AtomicUsize::new(0);
+
+#[inline]
+fn grew(by: usize) {
+    let live = LIVE.fetch_add(by, Ordering::Relaxed) + by;
+    PEAK.fetch_max(live, Ordering::Relaxed);
+}
 
 unsafe impl GlobalAlloc for Counting {
     unsafe fn alloc(&self, l: Layout) -> *mut u8 {
         MAX_REQ.fetch_max(l.size(), Ordering::Relaxed);
+        grew(l.size());
         System.alloc(l)
     }
     unsafe fn dealloc(&self, p: *mut u8, l: Layout) {
+        LIVE.fetch_sub(l.size(), Ordering::Relaxed);
         System.dealloc(p, l)
     }
     unsafe fn realloc(&self, p: *mut u8, l: Layout, new_size: usize) -> *mut u8 {
         MAX_REQ.fetch_max(new_size, Ordering::Relaxed);
+        if new_size >= l.size() {
+            grew(new_size - l.size());
+        } else {
+            LIVE.fetch_sub(l.size() - new_size, Ordering::Relaxed);
+        }
         System.realloc(p, l, new_size)
     }
     unsafe fn alloc_zeroed(&self, l: Layout) -> *mut u8 {
         MAX_REQ.fetch_max(l.size(), Ordering::Relaxed);
+        grew(l.size());
         System.alloc_zeroed(l)
     }
 }
 
 pub fn reset_max_req() {
     MAX_REQ.store(0, Ordering::Relaxed);
+    WINDOW_PEAK.store(0, Ordering::Relaxed);
 }
 pub fn max_req() -> usize {
     MAX_REQ.load(Ordering::Relaxed)
+}
+/// start of a measured window: what is live now is the baseline
+pub fn window_begin() {
+    let live = LIVE.load(Ordering::Relaxed);
+    WINDOW_BASE.store(live, Ordering::Relaxed);
+    PEAK.store(live, Ordering::Relaxed);
+}
+/// end of a measured window: the most that was live above the baseline (kept until reset_max_req)
+pub fn window_end() {
+    let over = PEAK.load(Ordering::Relaxed).saturating_sub(WINDOW_BASE.load(Ordering::Relaxed));
+    WINDOW_PEAK.fetch_max(over, Ordering::Relaxed);
+}
+pub fn window_peak() -> usize {
+    WINDOW_PEAK.load(Ordering::Relaxed)
 }
 
 // ---------------------------------------------------------------------------------
